@@ -973,6 +973,33 @@ fn pipeline_b(
             listed.push(p);
         }
     }
+    // a second walk during which the database directory vanishes (renamed away while
+    // the handle is open, as a concurrent pkg_admin rebuild would do): the walk ends
+    // or reports errors, polling it after the end returns normally
+    if hash_seed % 3 == 0 {
+        if let Ok(mut db2) = PkgDB::open(&dbpath) {
+            ctx.fault("db_directory_vanished");
+            let gone = dbpath.with_file_name("db-gone");
+            let before = ((hash_seed >> 8) as usize) % (pkgs.len() + 2);
+            for _ in 0..before {
+                let _ = db2.next();
+            }
+            let renamed = std::fs::rename(&dbpath, &gone).is_ok();
+            let mut polls = 0usize;
+            let mut ended = 0usize;
+            while ended < 3 && polls < pkgs.len() + 16 {
+                polls += 1;
+                if db2.next().is_none() {
+                    ended += 1;
+                }
+            }
+            ep!(ctx, "PkgDB::next (directory vanished)", ended > 0);
+            drop(db2);
+            if renamed {
+                std::fs::rename(&gone, &dbpath).unwrap_or_else(|e| panic!("SIM-HARNESS: rename back: {}", e));
+            }
+        }
+    }
     listed.sort_by(|a, b| a.pkgname().cmp(b.pkgname()));
     for pkg in listed {
         let _ = (pkg.pkgbase(), pkg.pkgversion());
@@ -1699,7 +1726,23 @@ impl Property for C17 {
                         ops.push(DOp::Set { var: k, val: v });
                     }
                 }
+                // some histories keep hitting one variable (state derived from a value must
+                // follow every replacement), with replacement values of one byte length
+                // whose '-', '.' and multi-byte characters sit at different offsets
+                const SAME_LEN: [&str; 10] = [
+                    "ab-1.00", "a\u{e9}-1.0", "\u{e9}-1.00", "a-\u{e9}1.0", "ab-\u{e9}.0", "abc-\u{e9}0", "\u{20ac}-1.0", "a\u{20ac}-.0", "abcdefg", "-------",
+                ];
+                let focus: Option<usize> = if rng.chance(1, 4) { Some(*rng.pick(&[15usize, 15, 16, 7, 2, 1])) } else { None };
                 for _ in 0..n {
+                    if let Some(var) = focus {
+                        if rng.chance(1, 3) {
+                            ops.push(DOp::Set {
+                                var,
+                                val: Val::S(rng.pick_str(&SAME_LEN).to_string()),
+                            });
+                            continue;
+                        }
+                    }
                     ops.push(match rng.below(12) {
                         0 | 1 => DOp::Push {
                             var: *rng.pick(&[3usize, 4, 5, 19, 20, 22]),
